@@ -3,6 +3,8 @@ import glob
 import json
 import os
 import random
+
+from vlib import budget
 import shutil
 import tempfile
 
@@ -32,6 +34,17 @@ CUR = dict(peer='10.0.0.2', step=[1.0])
 def pdir():
     """the directory the log of the current peer lives in (the handler lower-cases the address)"""
     return CUR['peer'].lower()
+
+
+def scratch_dir():
+    """memory-backed scratch space when there is one (every record is fsync'ed by the code under test)"""
+    tmp = os.environ.get('VERIF_TMP')
+    if os.path.isdir('/dev/shm') and os.access('/dev/shm', os.W_OK):
+        # named after the runner's scratch directory, which removes it when the run ends (also after a watchdog kill)
+        d = os.path.join('/dev/shm', os.path.basename(tmp) if tmp else 'verif-c20-%d' % os.getpid())
+        os.makedirs(d, exist_ok=True)
+        return d
+    return tmp or None
 
 
 class FakeFactory(object):
@@ -180,7 +193,7 @@ def count_lines(root):
 
 def plan(tier, seed):
     n = 16
-    return [dict(part=i, seed=seed * 100 + i, nhist=100 if tier == 'quick' else 600, tier=tier) for i in range(n)] + [dict(kind='live', seed=seed, n=20 if tier == 'quick' else 100)]
+    return [dict(part=i, seed=seed * 100 + i, nhist=100 if tier == 'quick' else 400, tier=tier) for i in range(n)] + [dict(kind='live', seed=seed, n=20 if tier == 'quick' else 100)]
 
 
 def run_shard(sh):
@@ -195,9 +208,11 @@ def run_shard(sh):
     if sh.get('kind') == 'live':
         return run_live(sh, res)
     rng = random.Random(sh['seed'])
-    base = tempfile.mkdtemp(prefix='verif-c20-', dir=os.environ.get('VERIF_TMP') or None)
+    base = tempfile.mkdtemp(prefix='verif-c20-', dir=scratch_dir())
     try:
         for hi in range(sh['nhist']):
+            if budget.expired():
+                break
             root = os.path.join(base, 'h%d' % hi)
             os.makedirs(root)
             max_size = rng.choice([10 ** 9, 10 ** 9, 600, 2000, 300])
@@ -305,10 +320,12 @@ def run_live(sh, res):
     """live sessions with the real DefaultHandler; the directory is audited after every event and after restarts"""
     rng = random.Random(sh['seed'])
     V = {}
-    base = tempfile.mkdtemp(prefix='verif-c20l-', dir=os.environ.get('VERIF_TMP') or None)
+    base = tempfile.mkdtemp(prefix='verif-c20l-', dir=scratch_dir())
     nev = 0
     try:
         for i in range(sh['n']):
+            if budget.expired():
+                break
             root = os.path.join(base, 'l%d' % i)
             os.makedirs(root)
             for restart in range(3):
